@@ -24,6 +24,9 @@ func shared() string {
 
 // Path returns the executable for this worker (building / waiting for the build on first use).
 func Path(c *vlib.Ctx) string {
+	if b := os.Getenv("VERIF_G6_MUREX"); b != "" {
+		return b // debugging aid: use a ready-made binary
+	}
 	mine := filepath.Join(c.WorkDir, "murex-bin")
 	if _, err := os.Stat(mine); err == nil {
 		return mine
